@@ -106,7 +106,10 @@ pub fn parse_range(v: Option<&[u8]>) -> Parsed {
         why = why.or(Some("more-than-20-digits"));
     }
     if specs.iter().flat_map(spec_nums).any(|n| n > u64::MAX as u128) {
-        why = why.or(Some("number-beyond-u64"));
+        // The statement's quantifier calls positions of 2^64 and beyond "unparseable": such a
+        // header is outside the grammar as far as the property is concerned and must be ignored,
+        // wherever in the set the number stands.
+        return Parsed::Garbage;
     }
     match why {
         None => Parsed::Strict(specs),
@@ -259,7 +262,9 @@ mod tests {
         assert_eq!(ex("bytes=+1-2", 10), vec![Outcome::Full]);
         assert_eq!(ex("items=1-2", 10), vec![Outcome::Full]);
         assert!(ex("bytes=1-2 ,3-4", 10).contains(&Outcome::Full));
-        assert!(ex("bytes=0-18446744073709551616", 10).contains(&Outcome::Single((0, 9))));
+        assert_eq!(ex("bytes=0-18446744073709551616", 10), vec![Outcome::Full]);
+        assert_eq!(ex("bytes=10-18446744073709551616", 10), vec![Outcome::Full]);
+        assert_eq!(ex("bytes=0-0,10-18446744073709551616", 10), vec![Outcome::Full]);
         assert_eq!(ex("bytes=0-1,5-6", 10), vec![Outcome::Multi(vec![(0, 1), (5, 6)]), Outcome::Full]);
         assert_eq!(ex("bytes=0-5,4-9", 10), vec![Outcome::Full]);
     }
